@@ -32,6 +32,17 @@ func (e ents) storeIface(iface, m string) *types.Func {
 // sameValue: structural equality of two SSA values for the purposes of "same record".
 func sameValue(a, b ssa.Value, depth int) bool {
 	a, b = core.Strip(a), core.Strip(b)
+	// a variable captured by a function literal is the enclosing function's variable
+	if fv, ok := a.(*ssa.FreeVar); ok {
+		if w := core.FreeVarBinding(fv); w != nil {
+			a = w
+		}
+	}
+	if fv, ok := b.(*ssa.FreeVar); ok {
+		if w := core.FreeVarBinding(fv); w != nil {
+			b = w
+		}
+	}
 	if a == b {
 		return true
 	}
